@@ -41,6 +41,10 @@ func main() {
 			runC09(os.Args[3:])
 		case "C10":
 			runC10(os.Args[3:])
+		case "C13":
+			runC13(os.Args[3:])
+		case "C14":
+			runC14(os.Args[3:])
 		}
 		fmt.Println("no check for property", id)
 		os.Exit(2)
